@@ -58,7 +58,12 @@ func vhC35Pos(name string) *big.Int {
 // bond, both or neither, and up to EVENTS3 vote events (delegation or bond
 // changes by any amount that keeps the vote non-negative, also down to
 // nothing) happen in the term.
-func VH_C35_term() {
+func VH_C35_term() { vhC35Term(sym.Param("VOTERS3", 2), sym.Param("EVENTS3", 1), false) }
+
+// the same term with a P-Rep that registers during the term (smaller world otherwise)
+func VH_C35_term_newcomer() { vhC35Term(1, sym.Param("EVENTS4", 0), true) }
+
+func vhC35Term(nv, maxEvents int, joins bool) {
 	lg := log.New()
 	database := db.NewMapDB()
 	stage := icstage.NewState(database)
@@ -76,7 +81,6 @@ func VH_C35_term() {
 	sym.Assert(stage.AddGlobalV3(0, 0, offsetLimit, 1, icmodule.ToRate(5), rFund, vhC35NonNeg("minBond")) == nil, "setup: global")
 
 	prep := vhC35Addr(1)
-	nv := sym.Param("VOTERS3", 2)
 	voters := make([]*common.Address, nv)
 	dlg := make([]*big.Int, nv) // current delegation to the P-Rep (nil: none)
 	bnd := make([]*big.Int, nv)
@@ -111,9 +115,25 @@ func VH_C35_term() {
 	sym.Assert(reward.SetDSA(icreward.NewDSA().Updated(1)) == nil, "setup: dsa")
 	sym.Assert(reward.SetPublicKey(prep, icreward.NewPublicKey().Updated(1)) == nil, "setup: public key")
 
-	// vote events of the term, as the state machine records them: the new vote is never negative
-	ne := sym.Range("events", 0, sym.Param("EVENTS3", 1))
 	offsets := []int{0, 10, offsetLimit}
+	// a P-Rep that is not in the records of the start of the term may register during the term
+	// and receive a bond and a delegation in that same term; it is not elected in this term
+	newcomer := vhC35Addr(2)
+	if joins {
+		sym.Reach("newcomer")
+		_, err := stage.AddEventEnable(0, newcomer, icmodule.ESEnable)
+		sym.Assert(err == nil, "setup: enable event")
+		backer := vhC35Addr(20)
+		oi := sym.Choose("newcomer_offset", len(offsets))
+		_, _, err = stage.AddEventBond(offsets[oi], backer, icstage.VoteList{icstage.NewVote(newcomer, vhC35Pos("newcomerBond"))})
+		sym.Assert(err == nil, "setup: bond event for the newcomer")
+		if sym.Bool("newcomer_delegated") {
+			_, _, err = stage.AddEventDelegation(offsets[oi], backer, icstage.VoteList{icstage.NewVote(newcomer, vhC35Pos("newcomerDelegation"))})
+			sym.Assert(err == nil, "setup: delegation event for the newcomer")
+		}
+	}
+	// vote events of the term, as the state machine records them: the new vote is never negative
+	ne := sym.Range("events", 0, maxEvents)
 	lastOff := 0
 	for e := 0; e < ne; e++ {
 		j := sym.Choose("who", nv)
